@@ -344,6 +344,18 @@ def correspond(ctx, scale):
                                              f'({"non-finite" if not bool(torch.isfinite(v_).all()) else "different values"})', 'case': dict(name=cfg['name'], fill=str(fill))})
         if len(samples) < 4:
             samples.append(dict(config=cfg['name']))
+    # (8) the input projection under a mask against the non-finite model (Model/NonFinite.v): rows, upstream gradients and the weight gradient of
+    # the Linear layer as torch computed them vs the model's forward / backward in the order the SOURCE uses (Gen/o_*_mask_proj), special values included
+    pcases, pmeta = projection_cases(ctx, rng, dist, failures)
+    evaluations += len(pcases)
+    pbad, pbroken = core.run_cases(ctx, 'c09_proj', PROJ_HEADER, pcases, per_file=20)
+    for name, out in pbroken:
+        failures.append({'key': f'coq-eval:{name}', 'what': 'case file did not evaluate: ' + out, 'case': {'file': name}})
+    for i, code in sorted(pbad.items()):
+        pm = pmeta[i]
+        failures.append({'key': f'{pm["cls"]}-projection-model:code{code}:fill={pm["fill"]}', 'what': f'{pm["cls"]} {pm["kw"]} with padding value {pm["fill"]}: '
+                         + ('weight gradient of the input projection' if code == 1 else 'output rows of the input projection') + ' differ from the non-finite model (zeroing order read from the source)',
+                         'case': dict(pm, code=code, term=pcases[i][:20000])})
     bad, broken = core.run_cases(ctx, 'c09', HEADER, cases, per_file=40)
     for name, out in broken:
         failures.append({'key': f'coq-eval:{name}', 'what': 'case file did not evaluate: ' + out, 'case': {'file': name}})
@@ -357,7 +369,98 @@ def correspond(ctx, scale):
             'samples': samples, 'failures': failures, 'distribution': dist}
 
 
+PROJ_HEADER = '''From Coq Require Import ZArith QArith List Bool String.
+From VQ Require Import Num Model.Vec Model.NonFinite.
+From VQ.Gen Require Import o_vq_mask_proj o_rvq_mask_proj.
+Import ListNotations.
+Open Scope Q_scope.
+'''
+
+
+def xlit(v):
+    import math
+    if math.isnan(v):
+        return 'NaN'
+    if math.isinf(v):
+        return 'PInf' if v > 0 else 'NInf'
+    return f'(Fin {qlit(Fraction(repr(float(v))))})'
+
+
+def xvec(row):
+    return '[' + '; '.join(xlit(v) for v in row) + ']'
+
+
+def xmat(rows):
+    return '[' + '; '.join(xvec(r) for r in rows) + ']'
+
+
+def projection_cases(ctx, rng, dist, failures):
+    import torch
+    from vector_quantize_pytorch import VectorQuantize, ResidualVQ
+    cases, meta = [], []
+    plans = []
+    for ci in range(6 if not ctx.thorough else 30):
+        cls = 'vq' if ci % 2 == 0 else 'rvq'
+        D, d = rng.choice([(3, 2), (4, 2), (2, 3), (4, 3)])
+        kw = dict(dim=D, codebook_dim=d, codebook_size=rng.choice([3, 5]), decay=0.5)
+        if cls == 'vq':
+            kw['heads'] = 1
+            if ci % 4 == 2:
+                kw['use_cosine_sim'] = True
+        else:
+            kw['num_quantizers'] = rng.choice([1, 2])
+        plans.append((cls, kw, [float('inf'), float('-inf'), float('nan'), 7.5, 0.0][ci % 5]))
+    for cls, kw, fill in plans:
+        try:
+            mod = VectorQuantize(**kw) if cls == 'vq' else ResidualVQ(**kw)
+            lin = mod.project_in if isinstance(mod.project_in, torch.nn.Linear) else mod.project_in[0]
+            if not isinstance(lin, torch.nn.Linear):
+                continue
+            with torch.no_grad():
+                lin.weight.copy_(vqrec.grid(rng, tuple(lin.weight.shape), 4, 8))
+                lin.bias.copy_(vqrec.grid(rng, tuple(lin.bias.shape), 4, 8))
+            mod.train()
+            b, n = 2, 3
+            lens = [n, rng.randrange(1, n)]
+            m = torch.arange(n)[None, :] < torch.tensor(lens)[:, None]
+            x = vqrec.grid(rng, (b, n, kw['dim']))
+            x = torch.where(m[..., None], x, torch.full_like(x, fill))
+            if fill != 0.0:
+                x[1, -1, 0] = 3.0          # a padded row that mixes a finite entry with the special value
+            cap = {}
+
+            def hook(_m, inp, out):
+                cap['in'] = inp[0].detach().clone()
+                cap['out'] = out.detach().clone()
+                out.register_hook(lambda g: cap.__setitem__('g', g.detach().clone()))
+            h = lin.register_forward_hook(hook)
+            try:
+                ret = mod(x, mask=m)
+                r = vqrec.grid(rng, tuple(ret[0].shape), 4, 8)
+                ((ret[0] * r).sum() + ret[2].sum()).backward()
+            finally:
+                h.remove()
+            if 'g' not in cap or lin.weight.grad is None:
+                continue
+        except Exception as ex:
+            failures.append({'key': f'{cls}-projection:exception:{type(ex).__name__}', 'what': f'{cls} {kw} with padding value {fill}: {ex!r}', 'case': dict(kw=kw, fill=str(fill))})
+            continue
+        dout, din = lin.weight.shape
+        order = 'o_vq_mask_proj' if cls == 'vq' else 'o_rvq_mask_proj'
+        rows = lambda t: t.reshape(-1, t.shape[-1]).double().tolist()
+        cases.append(f'proj_check (1 # 10000) (zero_first_of {order}) {dout}%nat {din}%nat {xmat(lin.weight.detach().double().tolist())} {xvec(lin.bias.detach().double().tolist())} '
+                     f'{blist(m.reshape(-1).tolist())} {xmat(rows(x))} {xmat(rows(cap["g"]))} {xmat(rows(cap["out"]))} {xmat(lin.weight.grad.double().tolist())}')
+        meta.append(dict(cls=cls, kw=kw, fill=str(fill), lens=lens))
+        dist['projection_nonfinite_model'] = dist.get('projection_nonfinite_model', 0) + 1
+    return cases, meta
+
+
 def replay_case(ctx, case):
+    if 'term' in case and str(case['term']).startswith('proj_check'):
+        bad, broken = core.run_cases(ctx, 'c09_replay', PROJ_HEADER, [case['term']], per_file=1)
+        if broken:
+            return True, 'replay term did not evaluate: ' + broken[0][1]
+        return (0 in bad), f'recorded projection case re-evaluated against the current model and call order: code {bad.get(0, 0)}'
     if 'term' in case:
         return c03.replay_case(ctx, case)
     return True, 're-run the check: %s' % (case,)
